@@ -507,6 +507,19 @@ func (c *Ctx) alloc(st *State, name string, guard *Term) *Term {
 	n := c.sc.freshConst("clk", SInt)
 	c.sc.assert(tEq(n, mk(SInt, "(+ %s 1)", clk.S)))
 	st.h["$clk"] = n
+	// ghost maps declared "zeroed" hold the zero value for an object that has just come into existence
+	for _, name := range c.V.zeroedGhosts {
+		g := c.V.ghosts[name]
+		s, err := ghostSort(g.Type)
+		if err != nil {
+			continue
+		}
+		ks, vs, ok := arrParts(s)
+		if !ok || ks != SV {
+			continue
+		}
+		c.sc.assert(tImp(guard, tEq(tSelect(c.get(st, "G:"+name, s), r), c.zeroTerm(vs))))
+	}
 	return r
 }
 
